@@ -17,7 +17,7 @@ SR(name, q) == [op |-> "SR", s1 |-> "", br |-> FALSE, s2 |-> "", body |-> name, 
 EX(name, who) == [op |-> "EX", s1 |-> "", br |-> FALSE, s2 |-> "", body |-> name, he |-> FALSE, eqn |-> "",
                   inc |-> TRUE, who |-> who]
 
-(* quick: 25 actions, histories of length 3 *)
+(* quick: 26 actions, histories of length 3 *)
 MC_AlphaQuick == {
     CF("",  FALSE, "",  "A",   TRUE),       \* A
     CF("-", FALSE, "",  "A",   TRUE),       \* -A
@@ -27,12 +27,14 @@ MC_AlphaQuick == {
     CF("-", TRUE,  "",  "B",   FALSE),      \* -(B)        not income
     CF("+", FALSE, "",  "A*B", TRUE),       \* +A*B
     CF("-", TRUE,  "",  "A*B", TRUE),       \* -(A*B)
-    CF("-", TRUE,  "-", "A*B", FALSE),      \* -(-A*B)     not income
+    CF("+", FALSE, "",  "B*A", TRUE),       \* +B*A        the same flow value as A*B
+    CF("+", FALSE, "",  "A/B", TRUE),       \* +A/B
+    CF("-", TRUE,  "",  "B/A", TRUE),       \* -(B/A)      not the same flow as A/B
     CFE("+", FALSE, "",  "A", D1, TRUE),
     CFE("-", FALSE, "",  "A", D2, TRUE),
     CFE("",  FALSE, "",  "A", "", FALSE),
     CFE("-", TRUE,  "-", "B", D1, TRUE),
-    EX("A", "S"), EX("B", "S"), EX("A*B", "S"), EX("A", "T"), EX("A", "O"),
+    EX("A", "S"), EX("A*B", "S"), EX("A", "T"), EX("A", "O"),
     AV("A", ""), AV("A", "0.0"), AV("A", D2), AV("B", D1),
     SR("A", D1), SR("A", "0.0"), SR("B", "") }
 
@@ -43,16 +45,27 @@ FInner == Form("", TRUE, "-")     FOuter == Form("-", TRUE, "")     FBoth  == Fo
 Forms6 == {FPlain, FPlus, FMinus, FInner, FOuter, FBoth}
 Forms4 == {FPlus, FMinus, FInner, FBoth}
 
-(* thorough, length 3: 58 actions *)
+(* thorough, length 3: 53 actions *)
 MC_AlphaMid ==
-    { CF(f.s1, f.br, f.s2, b, i) : f \in Forms4, b \in {"A", "B", "A*B"}, i \in BOOLEAN }
-    \cup { CFE(f.s1, f.br, f.s2, "A", q, i) : f \in {FPlus, FMinus}, q \in {"", D1, D2}, i \in BOOLEAN }
-    \cup { CFE(f.s1, f.br, f.s2, "B", q, TRUE) : f \in {FPlain, FBoth}, q \in {"", D1, D2} }
-    \cup { AV("A", q) : q \in Eqns } \cup { AV("B", D1), AV("B", "") }
+    { CF(f.s1, f.br, f.s2, b, i) : f \in Forms4, b \in {"A", "A/B"}, i \in BOOLEAN }
+    \cup { CF(f.s1, f.br, f.s2, b, TRUE) : f \in {FPlus, FMinus}, b \in {"B", "A*B", "B*A", "B/A"} }
+    \cup { CF("-", TRUE, "-", b, FALSE) : b \in {"B/A", "A*B"} }
+    \cup { CFE(f.s1, f.br, f.s2, "A", q, i) : f \in {FPlus, FMinus}, q \in {D1, D2}, i \in BOOLEAN }
+    \cup { CFE("", FALSE, "", "A", "", FALSE), CFE("", FALSE, "", "B", D1, TRUE), CFE("-", TRUE, "-", "B", "", TRUE) }
+    \cup { AV("A", q) : q \in Eqns } \cup { AV("B", D1) }
     \cup { SR("A", D1), SR("A", "0.0"), SR("A", ""), SR("B", D2) }
-    \cup { EX("A", "S"), EX("B", "S"), EX("A*B", "S"), EX("A", "T"), EX("B", "T"), EX("A", "O") }
+    \cup { EX("A", "S"), EX("A*B", "S"), EX("A/B", "S"), EX("B/A", "S"), EX("A", "T"), EX("A/B", "T"), EX("A", "O") }
 
-(* thorough, length 2: every action of the instance (all six spellings, all four bodies) *)
+(* thorough, length 4: 20 actions *)
+MC_AlphaLen4 == {
+    CF("",  FALSE, "",  "A",   TRUE),  CF("-", FALSE, "",  "A",   TRUE),  CF("-", TRUE,  "-", "A",   FALSE),
+    CF("+", FALSE, "",  "B",   TRUE),  CF("+", FALSE, "",  "A*B", TRUE),  CF("-", TRUE,  "",  "B*A", TRUE),
+    CF("+", FALSE, "",  "A/B", TRUE),  CF("-", TRUE,  "",  "B/A", TRUE),  CF("",  TRUE,  "-", "A/B", FALSE),
+    CFE("+", FALSE, "", "A", D1, TRUE), CFE("-", FALSE, "", "A", D2, TRUE), CFE("", FALSE, "", "A", "", FALSE),
+    EX("A", "S"), EX("A/B", "S"), EX("A", "T"),
+    AV("A", ""), AV("A", D2), AV("B", D1), SR("A", D1), SR("A", "0.0") }
+
+(* thorough, length 2: every action of the instance (all six spellings, all six bodies) *)
 MC_AlphaFull ==
     { CF(f.s1, f.br, f.s2, b, i) : f \in Forms6, b \in Bodies, i \in BOOLEAN }
     \cup { CFE(f.s1, f.br, f.s2, n, q, i) : f \in Forms6, n \in FlowNames, q \in {"", D1, D2}, i \in BOOLEAN }
